@@ -17,8 +17,8 @@ META = {
              "non-trivial = plan with >= 2 bins / a forced search that returned a plan"),
     "exhaustive": True,
     "bounds": {
-        "quick": "sweep lattice as C02 quick; force_target_nf: targets 100..400 step 10, N in {2000}, 4 schedulers",
-        "thorough": "sweep lattice as C02 thorough; force_target_nf: targets 100..400 step 1, N in {2000, 20000}",
+        "quick": "sweep lattice as C02 quick; force_target_nf: targets 100..400 step 10, N=2000, 4 schedulers; targets 100..400 step 2, N=60000, ltf and lpsd",
+        "thorough": "sweep lattice as C02 thorough; force_target_nf: targets 100..400 step 1, N in {2000, 20000, 60000}, 4 schedulers",
     },
     "assumptions": ["'no clamp active' is decided by a reference procedure written from the scheduler documentation's targets",
                     "ties of the nearest-integer rule are accepted either way"],
@@ -36,6 +36,11 @@ def shards(tier, seed):
         for name in sched.SCHEDS:
             for i in range(0, len(targets), chunk):
                 force.append({"prop": "C04", "force": True, "N": N, "sched": name, "targets": targets[i:i + chunk]})
+    # long records (the search takes ~1 s per target there): every second target for the iterative schedulers
+    big_targets = list(range(100, 401, 2 if tier == "quick" else 1))
+    for name in (("ltf", "lpsd") if tier == "quick" else sched.SCHEDS):
+        for i in range(0, len(big_targets), 10):
+            force.append({"prop": "C04", "force": True, "N": 60000, "sched": name, "targets": big_targets[i:i + 10]})
     return pairhist.shards_for(PROPERTY, force=True) + force + out
 
 
